@@ -1,8 +1,493 @@
-//! C08 — not built yet.
+//! C08 — strict JSON validation = RFC 8259 (+UTF-8, depth <= 128) (DESIGN §4 C08).
+//!
+//! Oracle: O-jsonpda, a flat byte-level push-down automaton written for the harness.
+//!   * `validate(x).is_ok()`  <=>  PDA accepts x (nesting cap 128).
+//!   * on Err(e): `e.position.offset <= viable_len` (the length of the longest prefix of x
+//!     that can still be extended to a valid document) and `offset <= len`;
+//!     `line`/`column` are those of `offset` (1-based, byte columns; LF, CRLF and a lone
+//!     CR each end a line — the convention pinned by the repository's own
+//!     `tests/common/json_oracle.rs::position_of`).
+//! Library level only; the CLI layers are added elsewhere.
 use crate::engine::*;
+use crate::gen::json::{self, GenOpts, KeyPalette, StrPalette};
+use crate::gen::jsonmut;
+use crate::oracle::jsonpda::{self, Verdict};
+use serde_json::{json, Value};
+use succinctly::json::validate::{validate, ValidationError, ValidationErrorKind};
 
-pub const RULE: &str = "not built";
+pub const RULE: &str = "G-json texts (all string palettes, every number shape, random whitespace incl. CR/CRLF/LF, every escape form); 1-2 near-valid edits of them (replace/insert/delete a byte of any value, truncate, duplicate/drop a token, swap a bracket, splice two documents, poison sequences: BOM, NUL, lone/misordered surrogate escapes, overlong / surrogate / >U+10FFFF / truncated UTF-8); bracket chains nested 120..=135 deep ([ / {\"a\": / mixed); grammar token soups; raw bytes. Sub-check `every-single-edit` enumerates, for small generated documents, every byte value at every offset as replacement and as insertion, every deletion and every truncation. Non-trivial: >= 8 bytes and within 2 edits of a valid text (valid, mutated and nested kinds); distinct by hash(bytes). The accept/reject split is reported as classes.";
+
+const MAX_DEPTH: usize = 128;
+
+fn kind_name(k: &ValidationErrorKind) -> &'static str {
+    match k {
+        ValidationErrorKind::UnexpectedCharacter { .. } => "UnexpectedCharacter",
+        ValidationErrorKind::UnexpectedEof { .. } => "UnexpectedEof",
+        ValidationErrorKind::TrailingContent => "TrailingContent",
+        ValidationErrorKind::UnclosedString => "UnclosedString",
+        ValidationErrorKind::InvalidEscape { .. } => "InvalidEscape",
+        ValidationErrorKind::InvalidUnicodeEscape { .. } => "InvalidUnicodeEscape",
+        ValidationErrorKind::UnpairedSurrogate { .. } => "UnpairedSurrogate",
+        ValidationErrorKind::ControlCharacter { .. } => "ControlCharacter",
+        ValidationErrorKind::LeadingZero => "LeadingZero",
+        ValidationErrorKind::LeadingPlus => "LeadingPlus",
+        ValidationErrorKind::InvalidNumber { .. } => "InvalidNumber",
+        ValidationErrorKind::InvalidKeyword { .. } => "InvalidKeyword",
+        ValidationErrorKind::InvalidUtf8 => "InvalidUtf8",
+        ValidationErrorKind::NestingTooDeep { .. } => "NestingTooDeep",
+    }
+}
+
+/// Naive 1-based (line, byte column) of `offset`: LF, CRLF and a lone CR each end a line.
+/// This is the convention the repository pins for `Position` (`tests/common/json_oracle.rs`
+/// `position_of`, used by `tests/json_validate_properties.rs`; `validate.rs` tests pin LF and
+/// CRLF), columns count bytes (`Position::column` docs).
+fn line_col(x: &[u8], offset: usize) -> (usize, usize) {
+    let mut line = 1;
+    let mut col = 1;
+    let mut i = 0;
+    while i < offset {
+        match x[i] {
+            b'\n' => {
+                line += 1;
+                col = 1;
+            }
+            b'\r' => {
+                if i + 1 < offset && x[i + 1] == b'\n' {
+                    i += 1;
+                }
+                line += 1;
+                col = 1;
+            }
+            _ => col += 1,
+        }
+        i += 1;
+    }
+    (line, col)
+}
+
+fn has_lone_cr(x: &[u8], upto: usize) -> bool {
+    (0..upto.min(x.len())).any(|i| x[i] == b'\r' && x.get(i + 1) != Some(&b'\n'))
+}
+
+fn is_hex(b: u8) -> bool {
+    b.is_ascii_hexdigit()
+}
+
+fn info(x: &[u8]) -> Value {
+    json!({"len": x.len(), "input_hex": hex(&x[..x.len().min(4096)]), "input": show_bytes(x)})
+}
+
+/// The oracle for one input. Returns whether it was accepted.
+pub fn check_input(x: &[u8], st: &mut Stats) -> Result<bool, Fail> {
+    let (verdict, _) = jsonpda::run(x, MAX_DEPTH);
+    let got: Result<(), ValidationError> = validate(x);
+    st.evals(1);
+    match (verdict, got) {
+        (Verdict::Accept, Ok(())) => Ok(true),
+        (Verdict::Accept, Err(e)) => {
+            fail!(format!("C08/rejects-valid/{}", kind_name(&e.kind)), {"error": e.to_string(), "case": info(x)})
+        }
+        (Verdict::Reject { viable_len }, Ok(())) => {
+            // name the shape: what is at the point where the text dies
+            let at = x.get(viable_len).copied();
+            let shape = if viable_len == x.len() {
+                "incomplete".to_string()
+            } else {
+                format!("byte-{:02x}", at.unwrap_or(0))
+            };
+            fail!(format!("C08/accepts-invalid/{}", shape), {"viable_len": viable_len, "case": info(x)})
+        }
+        (Verdict::Reject { viable_len }, Err(e)) => {
+            let p = e.position;
+            let kn = kind_name(&e.kind);
+            if p.offset > x.len() {
+                fail!(format!("C08/offset-beyond-input/{}", kn), {"offset": p.offset, "error": e.to_string(), "case": info(x)});
+            }
+            if p.offset > viable_len {
+                // Narrow shape of the known surrogate-escape finding: the text died at the
+                // 1st or 2nd hex digit of a \uXXXX escape *because of the surrogate pairing
+                // rule* (that byte is itself a hex digit), and the validator — which only
+                // judges pairing after reading the escape — reports an UnpairedSurrogate /
+                // InvalidUnicodeEscape error further on inside or right after that same escape.
+                let o = p.offset;
+                let v = viable_len;
+                let esc_at = |q: usize| q + 1 < x.len() && x[q] == b'\\' && x[q + 1] == b'u';
+                let q = if v >= 2 && esc_at(v - 2) {
+                    Some(v - 2)
+                } else if v >= 3 && esc_at(v - 3) && is_hex(x[v - 1]) {
+                    Some(v - 3)
+                } else {
+                    None
+                };
+                let surrogate_shape = match q {
+                    Some(q) => v < x.len() && is_hex(x[v]) && o <= q + 6 && x[v..o.min(x.len())].iter().all(|&b| is_hex(b)),
+                    None => false,
+                };
+                let sig = if surrogate_shape && (kn == "UnpairedSurrogate" || kn == "InvalidUnicodeEscape") {
+                    "C08/offset-beyond-viable-prefix/surrogate-rule-judged-after-the-escape-is-read".to_string()
+                } else {
+                    format!("C08/offset-beyond-viable-prefix/{}", kn)
+                };
+                fail!(sig, {"offset": o, "viable_len": viable_len, "error": e.to_string(), "case": info(x)});
+            }
+            // line / column of that offset
+            let lc = line_col(x, p.offset);
+            if (p.line, p.column) != lc {
+                fail!(format!("C08/line-column/{}", kn), {"offset": p.offset, "expected_line_col": [lc.0, lc.1], "actual_line_col": [p.line, p.column], "lone_cr_before_offset": has_lone_cr(x, p.offset), "error": e.to_string(), "case": info(x)});
+            }
+            Ok(false)
+        }
+    }
+}
+
+// ---------------------------------------------------------------- generation
+
+pub struct Case {
+    pub kind: &'static str,
+    pub text: Vec<u8>,
+    pub edits: Vec<jsonmut::Edit>,
+    pub depth: Option<usize>,
+}
+
+fn doc_opts(u: &mut Src, small: bool) -> GenOpts {
+    GenOpts {
+        max_depth: u.range(0, 7),
+        max_nodes: if small { u.range(1, 8) } else if u.ratio(1, 8) { u.range(40, 300) } else { u.range(1, 40) },
+        dup_keys: true,
+        strings: *u.pick(&[StrPalette::Full, StrPalette::Full, StrPalette::Ascii, StrPalette::AsciiPlain]),
+        keys: *u.pick(&[KeyPalette::AsStrings, KeyPalette::Hostile, KeyPalette::Ident]),
+        numbers: 2,
+        max_str_len: if small { 6 } else { 24 },
+    }
+}
+
+pub fn gen_case(u: &mut Src) -> Case {
+    match u.weighted(&[5, 9, 3, 3, 1]) {
+        0 => {
+            let o = doc_opts(u, false);
+            let (_, r) = jsonmut::gen_doc(u, &o);
+            Case { kind: "valid", text: r.text, edits: vec![], depth: None }
+        }
+        1 => {
+            let o = doc_opts(u, false);
+            let (_, r) = jsonmut::gen_doc(u, &o);
+            let other = if u.ratio(1, 4) {
+                let o2 = doc_opts(u, true);
+                Some(jsonmut::gen_doc(u, &o2).1.text)
+            } else {
+                None
+            };
+            let mut t = r.text.clone();
+            let n = if u.ratio(2, 3) { 1 } else { 2 };
+            let mut edits = vec![];
+            for _ in 0..n {
+                edits.push(jsonmut::mutate_once(u, &mut t, Some(&r), other.as_deref()));
+            }
+            Case { kind: "mutated", text: t, edits, depth: None }
+        }
+        2 => {
+            let d = if u.ratio(3, 4) { u.range(126, 131) } else { u.range(120, 135) };
+            let mut t = jsonmut::nested_text(u, d);
+            let mut edits = vec![];
+            if u.ratio(1, 4) {
+                edits.push(jsonmut::mutate_once(u, &mut t, None, None));
+            }
+            // sometimes as an element of a wider document, so that the cap is hit away from offset 0
+            if u.ratio(1, 4) {
+                let mut w = b"[1, {\"k\": ".to_vec();
+                w.extend_from_slice(&t);
+                w.extend_from_slice(b"}, 2]");
+                return Case { kind: "nested", text: w, edits, depth: Some(d + 2) };
+            }
+            Case { kind: "nested", text: t, edits, depth: Some(d) }
+        }
+        3 => Case { kind: "token-soup", text: jsonmut::token_soup(u, 200, 0), edits: vec![], depth: None },
+        _ => Case { kind: "raw", text: jsonmut::raw_bytes(u, 64), edits: vec![], depth: None },
+    }
+}
+
+fn classify(c: &Case, accepted: bool, st: &mut Stats) {
+    st.class(&format!("kind-{}", c.kind));
+    st.class(if accepted { "accepted" } else { "rejected" });
+    st.class(&format!("kind-{}-{}", c.kind, if accepted { "accepted" } else { "rejected" }));
+    for e in &c.edits {
+        st.class(&format!("edit-{}", e.kind));
+    }
+    if c.kind == "nested" {
+        // true nesting depth reached by the viable prefix (uncapped automaton run)
+        let d = jsonpda::run(&c.text, usize::MAX).1;
+        if (126..=131).contains(&d) {
+            st.class(&format!("depth-{}", d));
+            st.class(&format!("depth-{}-{}", d, if accepted { "accepted" } else { "rejected" }));
+        }
+    }
+    let x = &c.text;
+    st.class_if(x.windows(2).any(|w| w == b"\r\n"), "has-CRLF");
+    st.class_if(has_lone_cr(x, x.len()), "has-lone-CR");
+    st.class_if(x.contains(&b'\n'), "has-LF");
+    st.class_if(x.iter().any(|&b| b >= 0x80), "has-non-ASCII");
+    st.class_if(x.windows(2).any(|w| w == b"\\u"), "has-\\u-escape");
+    let nt = x.len() >= 8 && matches!(c.kind, "valid" | "mutated" | "nested") && c.edits.len() <= 2;
+    st.class_if(nt, "nontrivial");
+    if nt {
+        st.nontrivial(hash_bytes(x));
+    }
+    st.size(x.len());
+}
+
+/// Structured replay: `input.hex` | `input.text` | `input.texts` (several inputs of one root
+/// cause). A failure that is not a listed known finding wins over one that is.
+fn replay_input(v: &Value, known: &[String]) -> Option<Fail> {
+    let mut inputs: Vec<Vec<u8>> = vec![];
+    if let Some(h) = v["input"]["hex"].as_str() {
+        inputs.push(unhex(h));
+    }
+    if let Some(t) = v["input"]["text"].as_str() {
+        inputs.push(t.as_bytes().to_vec());
+    }
+    if let Some(a) = v["input"]["texts"].as_array() {
+        inputs.extend(a.iter().filter_map(|t| t.as_str()).map(|t| t.as_bytes().to_vec()));
+    }
+    let mut st = Stats::default();
+    let mut known_fail = None;
+    for x in inputs {
+        let f = match catch(|| check_input(&x, &mut st)) {
+            Ok(Ok(_)) => continue,
+            Ok(Err(f)) => f,
+            Err((loc, msg)) => Fail::new(format!("panic@{}", panic_sig(&loc)), json!({"panic": msg, "location": loc})),
+        };
+        if known.iter().any(|k| *k == f.sig) {
+            known_fail.get_or_insert(f);
+        } else {
+            return Some(f);
+        }
+    }
+    known_fail
+}
 
 pub fn run(cx: &mut Ctx) {
-    cx.infra("check not built");
+    cx.assume("oracle: harness push-down automaton O-jsonpda (RFC 8259 grammar, UTF-8 well-formedness table of Unicode ch.3, \\u escapes must form scalar values — the validator's own documented reading — nesting <= 128); self-tested against O-jsonval on 400k generated cases");
+    cx.assume("line/column convention: 1-based line, 1-based byte column; LF, CRLF and lone CR each end a line (pinned by /repo/tests/common/json_oracle.rs position_of and the validate.rs unit tests)");
+    let known: Vec<String> = cx.known.iter().filter(|k| k.status == "known").map(|k| k.signature.clone()).collect();
+    for (name, v) in cx.replays.clone() {
+        if v["kind"] == "input" {
+            let r = replay_input(&v, &known);
+            cx.replay_outcome(&name, r);
+        }
+    }
+
+    cx.check(
+        "validate-vs-pda",
+        RULE,
+        Budget { quick: 250_000, thorough: 10_000_000, max_len: 3000 },
+        |u, st| {
+            let c = gen_case(u);
+            st.describe(|| json!({"kind": c.kind, "hex": hex(&c.text[..c.text.len().min(8192)]), "text": show_bytes(&c.text), "edits": c.edits.iter().map(|e| format!("{}@{} {}", e.kind, e.at, e.detail)).collect::<Vec<_>>(), "depth": c.depth}));
+            let r = check_input(&c.text, st);
+            let accepted = match &r {
+                Ok(a) => *a,
+                Err(_) => false,
+            };
+            classify(&c, accepted, st);
+            st.sample(&format!("{}-{}", c.kind, accepted), || json!({"kind": c.kind, "accepted": accepted, "text": show_bytes(&c.text[..c.text.len().min(160)])}));
+            st.digest(hash_bytes(&c.text) ^ accepted as u64);
+            r.map(|_| ())
+        },
+    );
+    for cl in [
+        "kind-valid-accepted",
+        "kind-mutated-accepted",
+        "kind-mutated-rejected",
+        "kind-nested-accepted",
+        "kind-nested-rejected",
+        "kind-token-soup-rejected",
+        "kind-raw-rejected",
+        "edit-replace",
+        "edit-insert",
+        "edit-delete",
+        "edit-truncate",
+        "edit-dup-token",
+        "edit-drop-token",
+        "edit-swap-bracket",
+        "edit-string-poison",
+        "edit-insert-token",
+        "edit-splice",
+        "depth-126-accepted",
+        "depth-127-accepted",
+        "depth-128-accepted",
+        "depth-129-rejected",
+        "depth-130-rejected",
+        "depth-131-rejected",
+        "has-CRLF",
+        "has-lone-CR",
+        "has-non-ASCII",
+    ] {
+        cx.require_class("validate-vs-pda", cl, 20);
+    }
+
+    // Every single-byte edit of small documents: all 256 replacement values at every
+    // offset, all 256 insertions at every offset (incl. the end), every deletion, every
+    // truncation. Exhaustive per document; documents are generated.
+    let max_doc = if cx.tier == Tier::Quick { 48 } else { 200 };
+    // inside one enumerated case the search must continue past an open known finding
+    let tolerant = |x: &[u8], st: &mut Stats| -> Result<bool, Fail> {
+        match check_input(x, st) {
+            Err(f) if known.iter().any(|k| *k == f.sig) => {
+                st.known_hit(&f.sig);
+                Ok(false)
+            }
+            r => r,
+        }
+    };
+    cx.check(
+        "every-single-edit",
+        "generated documents of <= 48 bytes (200 thorough): for every offset, all 256 replacement bytes, all 256 inserted bytes, the deletion and the truncation, each checked against the PDA",
+        Budget { quick: 3_000, thorough: 12_000, max_len: 1200 },
+        |u, st| {
+            // small document: a few generated values side by side; drop values until it fits
+            let mut text = vec![];
+            let o = doc_opts(u, true);
+            let k = u.range(1, if max_doc > 48 { 8 } else { 4 });
+            let mut parts: Vec<json::J> = (0..k).map(|_| json::gen_value(u, &o)).collect();
+            let as_obj = u.ratio(1, 3);
+            let ro = json::render_opts(u);
+            while !parts.is_empty() {
+                let j = if parts.len() == 1 {
+                    parts[0].clone()
+                } else if as_obj {
+                    json::J::Obj(parts.iter().enumerate().map(|(i, p)| (format!("{}", (b'a' + i as u8) as char), p.clone())).collect())
+                } else {
+                    json::J::Arr(parts.clone())
+                };
+                text = json::render(&j, u, ro).text;
+                if text.len() <= max_doc {
+                    break;
+                }
+                parts.pop();
+            }
+            if text.len() > max_doc {
+                text = b"[1,\"a\\u00e9\",{\"k\":-0.5e+1}]".to_vec();
+            }
+            if u.ratio(1, 6) {
+                // start from a near-valid text as well
+                let e = jsonmut::mutate_once(u, &mut text, None, None);
+                st.class(&format!("base-edit-{}", e.kind));
+                text.truncate(max_doc + 8);
+            }
+            st.describe(|| json!({"base_hex": hex(&text), "base": show_bytes(&text)}));
+            st.size(text.len());
+            st.sample("base", || json!({"base": show_bytes(&text)}));
+            if text.len() >= 8 {
+                st.nontrivial(hash_bytes(&text));
+            }
+            let mut acc = 0u64;
+            let mut rej = 0u64;
+            let mut tally = |a: bool| {
+                if a {
+                    acc += 1
+                } else {
+                    rej += 1
+                }
+            };
+            tally(tolerant(&text, st)?);
+            let n = text.len();
+            let mut buf = text.clone();
+            for i in 0..n {
+                let old = buf[i];
+                for v in 0..=255u8 {
+                    if v == old {
+                        continue;
+                    }
+                    buf[i] = v;
+                    tally(tolerant(&buf, st)?);
+                }
+                buf[i] = old;
+            }
+            let mut ins = Vec::with_capacity(n + 1);
+            for i in 0..=n {
+                ins.clear();
+                ins.extend_from_slice(&text[..i]);
+                ins.push(0);
+                ins.extend_from_slice(&text[i..]);
+                for v in 0..=255u8 {
+                    ins[i] = v;
+                    tally(tolerant(&ins, st)?);
+                }
+            }
+            for i in 0..n {
+                let mut d = text.clone();
+                d.remove(i);
+                tally(tolerant(&d, st)?);
+                tally(tolerant(&text[..i], st)?);
+            }
+            if st.recording {
+                *st.classes.entry("edits-accepted".into()).or_insert(0) += acc;
+                *st.classes.entry("edits-rejected".into()).or_insert(0) += rej;
+            }
+            Ok(())
+        },
+    );
+    cx.require_class("every-single-edit", "edits-accepted", 1000);
+    cx.require_class("every-single-edit", "edits-rejected", 1000);
+
+    // Nesting cap, enumerated: depth 120..=135 x 5 bracket styles x 4 inner values x
+    // {bare, embedded, leading whitespace lines}.
+    cx.exhaustive(
+        "nesting-cap-family",
+        "depth 120..=135 x bracket style ([, {\"a\":, alternating x2, [ with CRLF between) x inner (empty, 1, [], {}) x (bare | embedded two levels down | preceded by blank lines); PDA with cap 128",
+        true,
+        |shard, nshards, st| {
+            let mut idx = 0usize;
+            for d in 120..=135usize {
+                for style in 0..5 {
+                    for inner in [&b""[..], b"1", b"[]", b"{}"] {
+                        for wrap in 0..3 {
+                            idx += 1;
+                            if idx % nshards != shard {
+                                continue;
+                            }
+                            let mut open = Vec::new();
+                            let mut close = Vec::new();
+                            for i in 0..d {
+                                let obj = match style {
+                                    0 | 4 => false,
+                                    1 => true,
+                                    2 => i % 2 == 0,
+                                    _ => i % 2 == 1,
+                                };
+                                if obj {
+                                    open.extend_from_slice(b"{\"a\":");
+                                    close.push(b'}');
+                                } else {
+                                    open.push(b'[');
+                                    close.push(b']');
+                                }
+                                if style == 4 && i % 9 == 0 {
+                                    open.extend_from_slice(b"\r\n ");
+                                }
+                            }
+                            close.reverse();
+                            let mut t = match wrap {
+                                1 => b"{\"x\":[".to_vec(),
+                                2 => b"\n\n\r\n  ".to_vec(),
+                                _ => vec![],
+                            };
+                            t.extend_from_slice(&open);
+                            t.extend_from_slice(inner);
+                            t.extend_from_slice(&close);
+                            if wrap == 1 {
+                                t.extend_from_slice(b"]}");
+                            }
+                            st.cases += 1;
+                            st.nontrivial(hash_bytes(&t));
+                            let a = check_input(&t, st)?;
+                            st.class(if a { "accepted" } else { "rejected" });
+                        }
+                    }
+                }
+            }
+            Ok(())
+        },
+    );
 }
